@@ -47,6 +47,25 @@ def in_unit(w, v, unit):
     return sp.spec_json(unit, None, [x * f for x in w], v)
 
 
+def tlc_unit(u):
+    """metres need denominators beyond TLC's 32-bit integers: the specification evaluates such an operand in nanometres
+    (BinOp is covariant under a change of the wavelength unit - Spectrum!ToWave - so only the numbers on the wavelength axis
+    are rescaled by the driver)"""
+    return 'nm' if u == 'm' else u
+
+
+def make_real(lentil, w, v, unit):
+    f = 10.0 ** (-9 - sp.EXP[unit])
+    wave = np.array([float(x) for x in w]) * f if unit != 'nm' else np.array([float(x) for x in w])
+    if all(x.denominator == 1 for x in v):
+        val = np.array([int(x) for x in v])                      # integer dtype
+    else:
+        val = np.array([float(x) for x in v])
+    if unit == 'nm' and all(x.denominator == 1 for x in w):
+        wave = np.array([int(x) for x in w])
+    return lentil.radiometry.Spectrum(wave, val, waveunit=unit, valueunit=None)
+
+
 def gen(tier, seed):
     rng = random.Random(1313 + seed)
     cases = []
@@ -60,7 +79,7 @@ def gen(tier, seed):
             if rel == 'disjoint':
                 shift = (w1[-1] - w2[0]) + rng.choice((1, 3))
                 w2 = [x + shift for x in w2]
-        units = ('um', 'nm', 'angstrom')      # metres need denominators beyond TLC's 32-bit integers (covered by C14)
+        units = ('m', 'um', 'nm', 'angstrom')
         u1, u2 = rng.choice(units), rng.choice(units)
         if rng.random() < 0.4:
             u2 = u1
@@ -78,16 +97,17 @@ def run(ctx):
     reals = {}
     skipped = 0
     for c in raw:
-        s1j = in_unit(c['w1'], c['v1'], c['u1'])
-        s2j = in_unit(c['w2'], c['v2'], c['u2'])
-        s1, s2 = sp.real_spectrum(lentil, s1j), sp.real_spectrum(lentil, s2j)
+        s1j = in_unit(c['w1'], c['v1'], tlc_unit(c['u1']))
+        s2j = in_unit(c['w2'], c['v2'], tlc_unit(c['u2']))
+        s1, s2 = make_real(lentil, c['w1'], c['v1'], c['u1']), make_real(lentil, c['w2'], c['v2'], c['u2'])
+        wscale = 10.0 ** (sp.EXP[c['u1']] - sp.EXP[tlc_unit(c['u1'])])      # real wavelength numbers -> the specification's unit
         d1, d2 = sp.state_digest(s1), sp.state_digest(s2)
         how = c['how']
         dphys = None
         if how == 'float':
             # requested sampling, in the unit of the left operand
-            dphys = rng_step = Fr(1, 2) * Fr(10) ** (-9 - sp.EXP[c['u1']])
-            how_arg = float(dphys)
+            dphys = Fr(1, 2) * Fr(10) ** (-9 - sp.EXP[tlc_unit(c['u1'])])
+            how_arg = float(Fr(1, 2)) * 10.0 ** (-9 - sp.EXP[c['u1']])
         else:
             how_arg = how
         sig = {'op': c['op'], 'units': 'same' if c['u1'] == c['u2'] else 'mixed', 'left_unit_nm': c['u1'] == 'nm', 'sampling': c['how']}
@@ -110,11 +130,11 @@ def run(ctx):
             continue
         cases.append({'id': cid, 'k': 'binop', 's1': s1j, 's2': s2j, 'op': c['op'], 'num': num,
                       'how': c['how'], 'd': sp.rj(dphys) if dphys is not None else [0, 1], 'fill': sp.rj(c['fill'])})
-        reals[cid] = (c, r, s1, s2, sig)
+        reals[cid] = (c, r, s1, s2, sig, wscale)
         # commutativity on the real objects (+ and x)
         if c['op'] in ('add', 'mul') and c['how'] in ('min', 'float'):
             r2 = getattr(s2, OPS[c['op']])(s1, sampling=how_arg if c['u1'] == c['u2'] or how == 'min' else
-                                           float(dphys * Fr(10) ** (sp.EXP[c['u1']] - sp.EXP[c['u2']])), fill_value=float(c['fill']))
+                                           0.5 * 10.0 ** (-9 - sp.EXP[c['u2']]), fill_value=float(c['fill']))
             f = 10.0 ** (sp.EXP[c['u2']] - sp.EXP[c['u1']])         # r2 is expressed in u2
             if len(r2.wave) != len(r.wave) or not np.allclose(r2.wave * f, r.wave, rtol=1e-9, atol=0) or \
                     not np.allclose(r2.value, r.value, rtol=1e-9, atol=1e-12):
@@ -124,7 +144,7 @@ def run(ctx):
     ctx.add_tlc(res, 'MC_Spectrum (BinOp semantics)')
     nties = 0
     for cid, tup in reals.items():
-        c, r, s1, s2, sig = tup[:5]
+        c, r, s1, s2, sig, wscale = tup[:6]
         e = exp[cid]
         ctx.case((c['op'], c['u1'], c['u2'], c['how'], str(c['w1']), str(c['w2'])), nontrivial=(c['w1'] != c['w2'] or c['u1'] != c['u2']))
         if not e['gridok']:
@@ -134,8 +154,8 @@ def run(ctx):
         ew = np.array([float(sp.rf(x)) for x in e['w']])
         ev = np.array([float(sp.rf(x)) for x in e['v']])
         ties = np.array(e['ties'], dtype=bool)
-        if not np.allclose(r.wave, ew, rtol=1e-12, atol=0):
-            ctx.violation(dict(sig, kind='grid'), {'expected': ew, 'observed': r.wave}, case={'case': cases[cid]})
+        if not np.allclose(r.wave * wscale, ew, rtol=1e-12, atol=0):
+            ctx.violation(dict(sig, kind='grid'), {'expected': ew, 'observed': r.wave * wscale}, case={'case': cases[cid]})
             continue
         # an exact tie is a grid point that equals a range end: only there may float rounding pick the other branch;
         # on grids that are exact in floating point (nanometre / angstrom integers and halves) nothing is exempt
@@ -149,8 +169,8 @@ def run(ctx):
             ctx.violation(dict(sig, kind='value'), {'s1': cases[cid]['s1'], 's2': cases[cid]['s2'], 'at_wave': float(ew[j]),
                                                     'expected': float(ev[j]), 'observed': float(r.value[j]), 'fill': float(c['fill'])},
                           case={'case': cases[cid]})
-        if len(tup) > 5:
-            r2 = tup[5]
+        if len(tup) > 6:
+            r2 = tup[6]
             f = 10.0 ** (sp.EXP[c['u2']] - sp.EXP[c['u1']])
             if len(r2.wave) != len(r.wave) and not exact_grid:
                 ctx.skip('commutativity: the two orders rounded the number of grid points differently (inexact units)')
@@ -163,18 +183,19 @@ def run(ctx):
     rng = random.Random(31 + ctx.seed)
     for _ in range(150):
         w, v = phys_spectrum(rng)
-        u = rng.choice(('um', 'nm', 'angstrom'))
-        sj = in_unit(w, v, u)
-        s = sp.real_spectrum(lentil, sj)
+        u = rng.choice(('m', 'um', 'nm', 'angstrom'))
+        sj = in_unit(w, v, tlc_unit(u))
+        s = make_real(lentil, w, v, u)
         d0 = sp.state_digest(s)
-        k = rng.choice((2, 0.5, 3.0))
+        k = rng.choice((2, 0.5, 3.0, 0, 1))          # 0 and 1 are the identities of + and x: the result is still a NEW spectrum
         vec = [float(rng.randint(1, 5)) for _ in w]
         vals = np.array([float(x) for x in v])
         for name, other, expect in (('add', k, vals + k), ('multiply', k, vals * k), ('subtract', vec, vals - vec), ('divide', vec, vals / vec),
                                     ('power', 2, vals ** 2), ('multiply', np.array(vec), vals * vec)):
             r = getattr(s, name)(other)
             ctx.case(('scalar', name, u, str(w)), nontrivial=True)
-            if not (np.array_equal(r.wave, s.wave) and np.allclose(r.value, expect, rtol=1e-12) and r.waveunit == u and r is not s):
+            if not (np.array_equal(r.wave, s.wave) and np.allclose(r.value, expect, rtol=1e-12) and r.waveunit == u and r is not s
+                    and not np.shares_memory(r.value, s.value)):
                 ctx.violation({'kind': 'scalar-or-vector-operand', 'op': name}, {'spectrum': sj, 'other': other}, case=None)
         if sp.state_digest(s) != d0:
             ctx.violation({'kind': 'operand-modified', 'op': 'scalar'}, {'spectrum': sj}, case=None)
